@@ -279,26 +279,28 @@ class FnItem:
 
 
 class Closure:
-    __slots__ = ("fn", "upvars", "span")
+    __slots__ = ("fn", "upvars", "span", "generics")
 
-    def __init__(self, fn, upvars, span):
+    def __init__(self, fn, upvars, span, generics=None):
         self.fn = fn
         self.upvars = upvars
         self.span = span
+        self.generics = generics
 
     def __repr__(self):
         return "Closure(%s)" % (self.fn.name if self.fn else self.span)
 
 
 class Coroutine:
-    __slots__ = ("fn", "upvars", "state", "saved", "span")
+    __slots__ = ("fn", "upvars", "state", "saved", "span", "generics")
 
-    def __init__(self, fn, upvars, span):
+    def __init__(self, fn, upvars, span, generics=None):
         self.fn = fn
         self.upvars = upvars
         self.state = 0
         self.saved = {}
         self.span = span
+        self.generics = generics
 
     def __repr__(self):
         return "Coroutine(%s)" % (self.fn.name if self.fn else self.span)
@@ -345,7 +347,7 @@ def deep_copy(v):
     if isinstance(v, VecV):
         return VecV(v.ty, [Cell(deep_copy(c.v)) for c in v.items])
     if isinstance(v, Closure):
-        return Closure(v.fn, [Cell(deep_copy(c.v)) for c in v.upvars], v.span)
+        return Closure(v.fn, [Cell(deep_copy(c.v)) for c in v.upvars], v.span, v.generics)
     if hasattr(v, "clone"):
         return v.clone()
     return v
@@ -602,6 +604,7 @@ class Program:
         self.free = {}          # last segment -> [Fn]
         self.children = {}      # parent fn name -> [Fn]
         self.impl_cache = {}
+        self.impl_generics = {}
         self.resolve_cache = {}
         self.assoc_consts = {}
         self._cur_crate = None
@@ -640,8 +643,12 @@ class Program:
             lines = open(full, errors="replace").read().split("\n")
             txt = lines[line - 1][col - 1:] + "\n" + "\n".join(lines[line:line + 60])
         info = (None, None)
+        gens = []
         if txt is not None:
+            decl.LAST_IMPL_GENERICS = []
             info = decl.parse_impl_text(txt)
+            gens = list(decl.LAST_IMPL_GENERICS)
+        self.impl_generics[key] = gens
         self.impl_cache[key] = info
         return info
 
@@ -683,6 +690,7 @@ class Program:
                         tl = last_ident(trait) if trait else None
                         fn.impl_trait = trait
                         fn.impl_self = selfty
+                        fn.impl_generics = self.impl_generics.get((crate, last.group(0)), [])
                         self.methods.setdefault((last_ident(selfty), method), []).append((tl, fn))
                 continue
             seg = name.split("::")[-1]
@@ -1072,12 +1080,13 @@ class PathResult:
 
 
 class Frame:
-    __slots__ = ("fn", "locals", "bb")
+    __slots__ = ("fn", "locals", "bb", "generics")
 
     def __init__(self, fn):
         self.fn = fn
         self.locals = {}
         self.bb = 0
+        self.generics = None
 
     def local(self, i):
         c = self.locals.get(i)
@@ -1106,7 +1115,7 @@ class Engine:
         self.paranoid = True
 
     # ------------------------------------------------------------------
-    def explore(self, thunk, max_paths=None, on_result=None, prefixes=None, stop_pending=None):
+    def explore(self, thunk, max_paths=None, on_result=None, prefixes=None, stop_pending=None, time_budget=None):
         """thunk(ctx) -> value.  Returns list[PathResult] (or streams them to on_result).
         prefixes: explore only the subtrees below these decision prefixes.
         stop_pending: stop as soon as that many unexplored subtrees are pending; they are left in
@@ -1115,6 +1124,7 @@ class Engine:
         n_done = 0
         work = [list(p) for p in prefixes] if prefixes is not None else [[]]
         self.pending = []
+        t_start = time.time()
         limit = max_paths or self.max_paths
         while work:
             if len(results) + n_done >= limit:
@@ -1125,6 +1135,10 @@ class Engine:
                     results.append(r)
                 break
             if stop_pending is not None and len(work) >= stop_pending:
+                self.pending = work
+                break
+            if time_budget is not None and work and (len(results) + n_done) > 0 and time.time() - t_start > time_budget:
+                # hand the unexplored subtrees back so that other workers can take them
                 self.pending = work
                 break
             prefix = work.pop()
@@ -1552,8 +1566,8 @@ class Engine:
             body = self.program.closure_body(frame.fn, span, kind)
             ups = [Cell(self.eval_operand(frame, o)) for (_, o) in rv.b]
             if kind == "closure":
-                return Closure(body, ups, span)
-            return Coroutine(body, ups, span)
+                return Closure(body, ups, span, frame.generics)
+            return Coroutine(body, ups, span, frame.generics)
         name = rv.c
         if kind == "adt_named":
             vals = [Cell(self.eval_operand(frame, o)) for (_, o) in rv.b]
@@ -1571,20 +1585,86 @@ class Engine:
     # ------------------------------------------------------------------
     # running a MIR body
     # ------------------------------------------------------------------
-    def run_fn(self, fn, args):
+    def run_fn(self, fn, args, generics=None):
         ctx = self.ctx
         ctx.depth += 1
         if ctx.depth > self.max_depth:
             raise BoundHit("call depth", (fn.name,))
         try:
-            return self._run_fn(fn, args)
+            return self._run_fn(fn, args, generics)
         finally:
             ctx.depth -= 1
 
-    def _run_fn(self, fn, args):
+    @staticmethod
+    def type_args(text):
+        """generic arguments of the last `<..>` group that closes `text` ("A<B, C>" -> [B, C])"""
+        text = text.strip()
+        if not text.endswith(">"):
+            return []
+        depth = 0
+        for i in range(len(text) - 1, -1, -1):
+            c = text[i]
+            if c == ">" and not (i > 0 and text[i - 1] in "-="):
+                depth += 1
+            elif c == "<":
+                depth -= 1
+                if depth == 0:
+                    inner = text[i + 1:-1]
+                    return [a for a in split_top(inner) if not a.startswith("'")]
+        return []
+
+    def bind_generics(self, fn, callee):
+        """map the impl's generic parameter names to the concrete types printed in the callee"""
+        names = getattr(fn, "impl_generics", None)
+        if not names:
+            return None
+        self_params = [a.strip() for a in self.type_args(getattr(fn, "impl_self", "") or "")]
+        if not self_params:
+            return None
+        c = callee.strip()
+        actual = []
+        if c.startswith("<"):
+            depth = 0
+            end = None
+            for i, ch in enumerate(c):
+                if ch == "<":
+                    depth += 1
+                elif ch == ">" and c[i - 1] not in "-=":
+                    depth -= 1
+                    if depth == 0:
+                        end = i
+                        break
+            inner = c[1:end]
+            idx = Program._find_as(inner)
+            ty = inner[:idx] if idx is not None else inner
+            actual = self.type_args(ty)
+        else:
+            # path::Type::<A, B>::method::<C>  -> the group that precedes the last path segment
+            m = re.match(r"^(.*)::([A-Za-z_][A-Za-z0-9_]*)(::<.*>)?$", c)
+            if m:
+                head = m.group(1)
+                if head.endswith(">"):
+                    actual = self.type_args(head.replace("::<", "<"))
+        if len(actual) != len(self_params):
+            return None
+        out = {}
+        for p, a in zip(self_params, actual):
+            if p in names and a.strip() != p:
+                out[p] = a.strip()
+        return out or None
+
+    def subst_generics(self, callee, generics):
+        if not generics:
+            return callee
+        for p, a in generics.items():
+            callee = re.sub(r"(?<![A-Za-z0-9_:])%s(?![A-Za-z0-9_])" % re.escape(p), a.replace("\\", "\\\\"), callee)
+        return callee
+
+    def _run_fn(self, fn, args, generics=None):
         if not fn.blocks:
             raise Untranslatable("no MIR body for %s" % fn.name)
         frame = Frame(fn)
+        frame.generics = generics
         for i, a in enumerate(args):
             frame.locals[i + 1] = Cell(a)
         visits = {}
@@ -1609,6 +1689,12 @@ class Engine:
                         if u.site is None or len(u.site) < 2:
                             u.site = (fn.name, bb, s.text)
                         raise
+                    except PathEnd:
+                        raise
+                    except Inconclusive:
+                        raise
+                    except Exception as e:
+                        raise Untranslatable("interpreter error %s: %s" % (type(e).__name__, e), (fn.name, bb, s.text))
                 elif s.kind == "setdiscr":
                     c = self.place_cell(frame, s.place)
                     v = c.v
@@ -1731,6 +1817,8 @@ class Engine:
     _re_ref_cmp = re.compile(r"^<&(?:'[a-z_]+ )?(?:mut )?(.*) as (PartialEq|PartialOrd|Ord)(<&(?:'[a-z_]+ )?(?:mut )?(.*)>)?>::(eq|ne|cmp|partial_cmp|lt|le|gt|ge)$")
 
     def call_named(self, callee, args, frame=None):
+        if frame is not None and frame.generics:
+            callee = self.subst_generics(callee, frame.generics)
         callee = self.normalize(callee)
         m = self._re_ref_cmp.match(callee)
         if m and len(args) == 2 and all(isinstance(a, Ref) and isinstance(a.cell.v, Ref) for a in args):
@@ -1740,10 +1828,18 @@ class Engine:
         model = self.find_model(callee)
         if model is not None:
             self.stats.calls_modelled[callee] = self.stats.calls_modelled.get(callee, 0) + 1
-            return model(self, self.ctx, args, callee, frame)
+            try:
+                return model(self, self.ctx, args, callee, frame)
+            except (AttributeError, TypeError, IndexError, KeyError) as e:
+                # a model met a value shape it does not handle: a coverage gap, not a crash of the check
+                raise Untranslatable("model for %s cannot handle its arguments (%s: %s)" % (
+                    callee.split("::<")[0][:80], type(e).__name__, e))
         fn = self.program.resolve(callee, frame.fn if frame else None)
         if fn is not None:
-            return self.run_fn(fn, args)
+            g = self.bind_generics(fn, callee)
+            if g is None and frame is not None and frame.generics and getattr(fn, "impl_generics", None):
+                g = frame.generics
+            return self.run_fn(fn, args, g)
         raise Untranslatable("call " + callee)
 
     def call_value(self, fv, args, frame=None):
@@ -1754,7 +1850,7 @@ class Engine:
             if fv.fn is None:
                 raise Untranslatable("closure body not found %s" % fv.span)
             # closure ABI: (_1 = &env / env, then the tupled args spread)
-            return self.run_fn(fv.fn, [Ref(Cell(fv))] + list(args))
+            return self.run_fn(fv.fn, [Ref(Cell(fv))] + list(args), fv.generics)
         if isinstance(fv, FnItem):
             return self.call_named(fv.name, args, frame)
         raise Untranslatable("call of %s" % type(fv).__name__)
@@ -1770,7 +1866,7 @@ class Engine:
                 raise Untranslatable("closure body not found %s" % fv.span)
             first = fv.fn.arg_types[0] if fv.fn.arg_types else ""
             env = Ref(Cell(fv)) if first.startswith("&") else fv
-            return self.run_fn(fv.fn, [env] + list(args))
+            return self.run_fn(fv.fn, [env] + list(args), fv.generics)
         if isinstance(fv, FnItem):
             return self.call_named(fv.name, list(args), None)
         raise Untranslatable("call_closure of %s" % type(fv).__name__)
